@@ -184,12 +184,37 @@ func c15Run(cs c15Case) (obs c15Obs, cw *countingWriter, panicked interface{}) {
 	}))
 	c.Add(ws)
 	q := h.Req{Method: "GET", Segs: []string{"b", "r"}, Hdr: [][2]string{{"Accept", cs.Accept}}}
+	if cs.First == "HandleWithFilter" {
+		// a plain http.Handler behind the container filters: status and raw writes go through
+		// whatever writer the container hands it
+		c.HandleWithFilter("/p/", http.HandlerFunc(func(w http.ResponseWriter, r *http.Request) {
+			before := cw.failures
+			w.WriteHeader(cs.Status)
+			obs.CallErrs = append(obs.CallErrs, "")
+			obs.FailedIn = append(obs.FailedIn, cw.failures > before)
+			for i := 0; i < cs.Writes; i++ {
+				before := cw.failures
+				acc := cw.accepted
+				n, err := w.Write([]byte(fmt.Sprintf("raw-chunk-%d;", i)))
+				note(err, before)
+				obs.RawN = append(obs.RawN, n)
+				if cs.Coding == "" && n != cw.accepted-acc {
+					obs.CallErrs[len(obs.CallErrs)-1] += fmt.Sprintf(" (Write returned n=%d, the writer accepted %d)", n, cw.accepted-acc)
+				}
+			}
+		}))
+		q.Segs = []string{"p", "x"}
+	}
 	if cs.Coding != "" {
 		q.Hdr = append(q.Hdr, [2]string{"Accept-Encoding", cs.Coding})
 	}
 	func() {
 		defer func() { panicked = recover() }()
-		c.Dispatch(cw, q.HTTP())
+		if cs.First == "HandleWithFilter" {
+			c.ServeHTTP(cw, q.HTTP()) // plain handlers are reached through the mux
+		} else {
+			c.Dispatch(cw, q.HTTP())
+		}
 	}()
 	return
 }
@@ -368,7 +393,7 @@ func c15Cases(tier string) []c15Case {
 	statuses := []int{200, 201, 404}
 	values := []string{"nil", "small", "big"}
 	for _, s := range statuses {
-		firsts = append(firsts, c15Case{First: "WriteHeader", Status: s})
+		firsts = append(firsts, c15Case{First: "WriteHeader", Status: s}, c15Case{First: "HandleWithFilter", Status: s})
 		firsts = append(firsts, c15Case{First: "WriteError", Status: s}, c15Case{First: "WriteError", Status: s, ErrNil: true}, c15Case{First: "WriteErrorString", Status: s}, c15Case{First: "WriteServiceError", Status: s})
 		for _, v := range values {
 			firsts = append(firsts, c15Case{First: "WriteHeaderAndEntity", Status: s, Value: v}, c15Case{First: "WriteHeaderAndJson", Status: s, Value: v}, c15Case{First: "WriteHeaderAndXml", Status: s, Value: v})
@@ -398,10 +423,12 @@ func c15Cases(tier string) []c15Case {
 					}
 					coded := base
 					coded.Coding = "gzip"
-					out = append(out, coded)
-					if tier == "thorough" {
-						coded.Coding = "deflate"
+					if f.First != "HandleWithFilter" {
 						out = append(out, coded)
+						if tier == "thorough" {
+							coded.Coding = "deflate"
+							out = append(out, coded)
+						}
 					}
 					for k := 1; k <= 3; k++ {
 						for _, j := range []int{0, 1, -1} {
